@@ -74,7 +74,8 @@ static unsigned long long hcase(const kcase_t *c) { return hbytes(14695981039346
 
 static int case_str(const kcase_t *c, char *b, size_t bl) {
     int o = snprintf(b, bl, "fam=%s m=%d n=%d pat=", FAMN[c->fam], c->m, c->n);
-    for (int i = 0; i < c->m; i++) for (int j = 0; j < c->n; j++) b[o++] = ((c->bits >> (i * c->n + j)) & 1) ? '1' : '0';
+    if (c->n > 5) o += snprintf(b + o, bl - o, "cat%u", c->bits);      /* factor catalogue: the matrix is named, not spelled out */
+    else for (int i = 0; i < c->m; i++) for (int j = 0; j < c->n; j++) b[o++] = ((c->bits >> (i * c->n + j)) & 1) ? '1' : '0';
     o += snprintf(b + o, bl - o, " vt=%d", c->vt);
     switch (c->fam) {
     case F_GEMV: o += snprintf(b + o, bl - o, " tr=%c a=%d b=%d incx=%d incy=%d st=%d pm=%d", TRCH[c->trans], c->ai, c->bi, c->incx, c->incy, c->store, c->perm); break;
@@ -135,6 +136,19 @@ static scalar_t snan(void) { return L2S(cpx(NAN, NAN)); }
 static void build_matrix(tmat_t *T, ldc D[NMAX][NMAX], int fam, int m, int n, unsigned bits, int vt) {
     int pat[NMAX][NMAX];
     for (int i = 0; i < NMAX; i++) for (int j = 0; j < NMAX; j++) { pat[i][j] = 0; D[i][j] = 0; }
+    if (fam == F_TRSV && n > 5) {
+        /* factor catalogue (n = 10; added after the defect repaired by 2f9b9cd turned out to be unreachable with n <= 4 factors): a single-column supernode in
+           front of several multi-column supernodes that still have rows below them (the blocks are split by maxsuper 2 / 3) */
+        for (int i = 0; i < n; i++) pat[i][i] = 1;
+        switch (bits) {
+        case 0: for (int i = 0; i < 4; i++) pat[i][i + 1] = pat[i + 1][i] = 1; for (int i = 4; i < n; i++) for (int j = 4; j < n; j++) pat[i][j] = 1; break;          /* chain of 4 + dense 6 */
+        case 1: pat[5][0] = pat[9][0] = pat[0][5] = 1; for (int i = 1; i < 5; i++) for (int j = 1; j < 5; j++) pat[i][j] = 1; for (int i = 5; i < n; i++) for (int j = 5; j < n; j++) pat[i][j] = 1; pat[4][5] = pat[5][4] = 1; break;
+        case 2: for (int i = 0; i < 4; i++) for (int j = 0; j < 4; j++) { pat[i][j] = 1; pat[4 + i][4 + j] = 1; } for (int i = 0; i < n; i++) { pat[8][i] = pat[i][8] = pat[9][i] = pat[i][9] = 1; } break;
+        default: pat[9][0] = pat[0][9] = 1; for (int i = 1; i < n; i++) for (int j = 1; j <= i; j++) pat[i][j] = 1; for (int i = 1; i + 1 < n; i++) pat[i][i + 1] = 1; break;   /* singleton + lower Hessenberg */
+        }
+        for (int i = 0; i < n; i++) for (int j = 0; j < n; j++) if (pat[i][j]) D[i][j] = kval(fam, vt, i, j);
+        tm_from_dense(T, m, n, pat, D); return;
+    }
     for (int i = 0; i < m; i++) for (int j = 0; j < n; j++) { pat[i][j] = (bits >> (i * n + j)) & 1; if (pat[i][j]) D[i][j] = kval(fam, vt, i, j); }
     tm_from_dense(T, m, n, pat, D);
 }
@@ -491,9 +505,9 @@ static sweep_t SW;
 
 static void sweep_init(void) {
     SW.nshape = 0; SW.cum[0] = 0;
-    if (SW.fam == F_TRSV) { for (int n = 1; n <= SW.nmax; n++) { SW.sh[SW.nshape][0] = n; SW.sh[SW.nshape][1] = n; SW.nshape++; } }
+    if (SW.fam == F_TRSV) { for (int n = 1; n <= SW.nmax; n++) { SW.sh[SW.nshape][0] = n; SW.sh[SW.nshape][1] = n; SW.nshape++; } SW.sh[SW.nshape][0] = 10; SW.sh[SW.nshape][1] = 10; SW.nshape++; }
     else for (int m = 1; m <= SW.mmax; m++) for (int n = 1; n <= SW.nmax; n++) { SW.sh[SW.nshape][0] = m; SW.sh[SW.nshape][1] = n; SW.nshape++; }
-    for (int s = 0; s < SW.nshape; s++) SW.cum[s + 1] = SW.cum[s] + (1L << (SW.sh[s][0] * SW.sh[s][1]));
+    for (int s = 0; s < SW.nshape; s++) SW.cum[s + 1] = SW.cum[s] + (SW.sh[s][0] > 5 ? 4L /* catalogue */ : (1L << (SW.sh[s][0] * SW.sh[s][1])));
     SW.nunits = SW.cum[SW.nshape] * SW.nvt;
 }
 static void unit_decode(long u, int *m, int *n, unsigned *bits, int *vt) {
@@ -536,12 +550,13 @@ static void unit_cases(int m, int n, unsigned bits, int vt) {
     } else if (SW.fam == F_TRSV) {
         /* hypothesis: factors exist, i.e. the pattern is structurally nonsingular (generic values: then numerically nonsingular) */
         int pat[NMAX][NMAX], cols[NMAX]; memset(pat, 0, sizeof pat);
-        for (int i = 0; i < n; i++) { cols[i] = i; for (int j = 0; j < n; j++) pat[i][j] = (bits >> (i * n + j)) & 1; }
+        for (int i = 0; i < n; i++) { cols[i] = i; for (int j = 0; j < n; j++) pat[i][j] = n > 5 ? (D[i][j] != 0) : (int)((bits >> (i * n + j)) & 1); }
         if (struct_rank_prefix(n, pat, cols, n) < n) { if (!G->resume_cfg) G->units_outside_hyp++; return; }
         /* factor options (panel_size, relax, maxsuper).  n <= 3 and the full grid: {1,4} x {1,2} x {1,2,n}; quick grid at n = 4: three
            combinations that give singleton, relaxed and two-column T2 supernodes */
         int cfg[12][3], ncfg = 0;
-        if (n >= 4 && !SW.full) { static const int q[3][3] = { { 1, 2, 1 }, { 4, 1, 2 }, { 1, 1, 99 } }; for (int k = 0; k < 3; k++) { cfg[ncfg][0] = q[k][0]; cfg[ncfg][1] = q[k][1]; cfg[ncfg][2] = q[k][2] == 99 ? n : q[k][2]; ncfg++; } }
+        if (n > 5) { static const int q[5][3] = { { 1, 1, 2 }, { 1, 1, 3 }, { 2, 1, 2 }, { 1, 2, 2 }, { 4, 1, 4 } }; for (int k = 0; k < 5; k++) { cfg[ncfg][0] = q[k][0]; cfg[ncfg][1] = q[k][1]; cfg[ncfg][2] = q[k][2]; ncfg++; } }
+        else if (n >= 4 && !SW.full) { static const int q[3][3] = { { 1, 2, 1 }, { 4, 1, 2 }, { 1, 1, 99 } }; for (int k = 0; k < 3; k++) { cfg[ncfg][0] = q[k][0]; cfg[ncfg][1] = q[k][1]; cfg[ncfg][2] = q[k][2] == 99 ? n : q[k][2]; ncfg++; } }
         else {
             static const int WS[2] = { 1, 4 }, RS[2] = { 1, 2 };
             int msv[3] = { 1, 2, n }, nms = n >= 3 ? 3 : n;
@@ -652,8 +667,11 @@ static int replay_one(const char *s) {
     if ((p = strstr(s, "uplo=")) && sscanf(p + 5, "%c", &ch) == 1) c->uplo = ch == 'U';
     if ((p = strstr(s, "norm="))) { sscanf(p + 5, "%7s", nm); c->norm = -1; for (int k = 0; k < 11; k++) if (!strcmp(nm, NORMS[k])) c->norm = k; }
     if ((p = strstr(s, "op="))) { sscanf(p + 3, "%31s", op); c->op = -1; for (int k = 0; k < OP_N; k++) if (!strcmp(op, OPN[k])) c->op = k; }
+    if (c->n > 5 && (p = strstr(s, "pat=cat"))) { c->bits = (unsigned)atoi(p + 7); if (c->fam != F_TRSV || c->n > NMAX) { fprintf(stderr, "bad case string\n"); return 2; } }
+    else {
     if (c->fam < 0 || c->m <= 0 || c->n <= 0 || c->m > NMAX || c->n > NMAX || (int)strlen(pat) != c->m * c->n || c->m * c->n > 31 || c->norm < 0 || c->op < 0) { fprintf(stderr, "bad case string\n"); return 2; }
     for (int k = 0; k < c->m * c->n; k++) if (pat[k] == '1') c->bits |= 1u << k;
+    }
     SW.fam = c->fam; G->cur = *c;
     fflush(NULL);
     pid_t pid = fork();
